@@ -47,6 +47,18 @@ def execute(op):
         kind, inp = op["op"], op["input"]
         if kind == "read":
             return "G:" + gfp(R.graph_from_molfile_text(inp))
+        if kind == "read_file":
+            # file-system history: every such operation of one thread uses the SAME path, and the file gets the same modification time each time
+            import os, threading
+            path = os.path.abspath(f"c14_same_path_{os.getpid()}_{threading.get_ident()}.mol")
+            try:
+                with open(path, "w") as f:
+                    f.write(inp)
+                os.utime(path, ns=(1_600_000_000 * 10 ** 9, 1_600_000_000 * 10 ** 9))
+                return "S:" + S.serialize_molecule(C.canonicalize_molecule(R.graph_from_file(path)))
+            finally:
+                if os.path.exists(path):
+                    os.unlink(path)
         if kind == "canon_text":
             return "G:" + gfp(C.canonicalize_molecule(R.graph_from_molfile_text(inp)))
         if kind == "ser_text":
